@@ -15,7 +15,22 @@ use std::sync::atomic::Ordering;
 use std::time::Instant;
 
 pub const DEFAULT_SEED: u64 = 20261004;
-pub const VERIF_DIR: &str = "/verif";
+/// Root of the verification tree this binary belongs to: `$VERIF_DIR`, else derived from the
+/// location of the executable (`<root>/sim/target/release/flurry-sim`), else `/verif`. A
+/// snapshot started by `vp run` therefore writes its evidence and replays into the snapshot.
+pub fn verif_dir() -> String {
+    if let Ok(d) = std::env::var("VERIF_DIR") {
+        return d;
+    }
+    if let Ok(exe) = std::env::current_exe() {
+        if let Some(root) = exe.ancestors().nth(4) {
+            if root.join("MANIFEST.json").exists() || root.join("sim").exists() {
+                return root.to_string_lossy().to_string();
+            }
+        }
+    }
+    "/verif".to_string()
+}
 
 pub fn base_seed() -> u64 {
     std::env::var("VERIF_SEED").ok().and_then(|s| s.trim().parse::<u64>().ok()).unwrap_or(DEFAULT_SEED)
@@ -42,7 +57,7 @@ pub struct Known {
 
 pub fn load_known() -> Vec<Known> {
     let mut out = Vec::new();
-    let Ok(s) = std::fs::read_to_string(format!("{}/KNOWN_FINDINGS.txt", VERIF_DIR)) else {
+    let Ok(s) = std::fs::read_to_string(format!("{}/KNOWN_FINDINGS.txt", verif_dir())) else {
         return out;
     };
     for line in s.lines() {
@@ -690,7 +705,7 @@ pub fn replay_main(args: &[String]) -> i32 {
 /* ------------------------------ check (orchestrator) ------------------------------ */
 
 fn tmp_dir() -> String {
-    let d = format!("{}/sim/target/tmp", VERIF_DIR);
+    let d = format!("{}/sim/target/tmp", verif_dir());
     let _ = std::fs::create_dir_all(&d);
     d
 }
@@ -916,7 +931,7 @@ pub fn minimise(mut best: Value, budget_s: u64) -> Value {
 }
 
 fn write_evidence(prop: &str, tier: &str, seed: u64, level: &str, agg: &Agg, distinct: u64, wall_s: f64, violations: u64, known_lines: &[String]) {
-    let dir = format!("{}/evidence", VERIF_DIR);
+    let dir = format!("{}/evidence", verif_dir());
     let _ = std::fs::create_dir_all(&dir);
     let ev_names = props::ev_names();
     let mut probes = serde_json::Map::new();
@@ -1094,7 +1109,7 @@ pub fn check_main(args: &[String]) -> i32 {
 }
 
 pub fn report_violation(prop: &str, v: Value) -> i32 {
-    let dir = format!("{}/replays", VERIF_DIR);
+    let dir = format!("{}/replays", verif_dir());
     let _ = std::fs::create_dir_all(&dir);
     let class = v["class"].as_str().unwrap_or("").to_string();
     println!("violation candidate: class={} index={} run_seed={}", class, v["index"], v["run_seed"]);
